@@ -9,8 +9,8 @@ bech32, `E` the empty string.
 Ops (all stateless; every line carries its own grants):
   wp mt=<T> req=<parties> avail=<parties> roles=<roles> signers=<addrs> grants=<grants>
   wo mt=<T> required=<addrs> signers=… grants=…
-  wscope existing=<scope|none> proposed=<scope> roles=<roles|none> [newroles=…] signers=… grants=…
-  dscope scope=<scope> roles=<roles|none> signers=… grants=…
+  wscope existing=<scope|none> proposed=<scope> roles=<roles|none> [newroles=…] [vo=<addr|-> pvo=<addr|->] signers=… grants=…
+  dscope scope=<scope> roles=<roles|none> [vo=<addr|->] signers=… grants=…
   upd mt=<T> scope=<scope> roles=… signers=… grants=…
   owners mt=<T> scope=<scope> proposed=<parties> roles=… signers=… grants=…
   wsession scope=<scope> existing=<parties|none> proposed=<parties> roles=… signers=… grants=…
@@ -22,11 +22,18 @@ The endpoint ops may end in `via=msg`: the harness then sends the message END TO
 the real message server on the stored state (same decision), and after an accepted message
 reads the stored entry back: the answer is `ok stored=<entry>`.  `mowners` always does: the
 message server computes the proposed owners from the stored scope.
+`vo` = the stored scope's value owner (held in the bank module), `pvo` = the message's
+`value_owner_address`; with them the read-back is `<scope>@<value owner>`.
+`via=hist` (stream `signershist`): as `via=msg`, but the stored state the line describes was
+not put there by the harness: it is what the previous messages of the history left behind
+(read back from the keeper before every op), so the scope may have changed its rollup flag,
+owners or value owner since its sessions and records were written.
 parties `A:5:o|B:2:r` (address:role:o(ptional)/r(equired)), scope `<rollup 0/1>/<other>/<parties>`,
 grants `granter>grantee:T|…` (`T#k` count authorization, `T!` expired), `-` = empty list.
 -/
 import PvModel.SignersSpec
 -- registry: signers PvModel.Signers.driver
+-- registry: signershist PvModel.Signers.driver
 
 namespace PvModel.Signers
 open PvModel
@@ -94,6 +101,7 @@ def Err.cls : Err → String
   | .rolesAbsent _ => "roles_absent"
   | .partiesAbsent _ => "parties_absent"
   | .optionalNotAllowed => "optional_not_allowed"
+  | .valueOwner => "value_owner"
 
 def Err.show (e : Err) : String :=
   match e with
@@ -157,6 +165,8 @@ structure Clauses where
   rolesCovered : Bool := true
   /-- smart-contract signer positions and authorizations -/
   smartContract : Bool := true
+  /-- a value owner that is replaced (scope write) or whose scope is deleted has signed -/
+  valueOwner : Bool := true
 
 def Clauses.ofReq (env : Env) (mt : MsgType) (signers : List Addr) (used : List Addr) (req : Spec.Req) :
     Clauses :=
@@ -179,11 +189,12 @@ def verdict (tag : String) (c : Clauses) (impl : String) : String :=
     else if !c.provMust then s!"fail:{tag}:accepted_provenance_role_mismatch"
     else if !c.requiredCovered then s!"fail:{tag}:accepted_uncovered_required_party"
     else if !c.rolesCovered then s!"fail:{tag}:accepted_role_without_signing_party"
+    else if !c.valueOwner then s!"fail:{tag}:accepted_without_value_owner_signature"
     else if !c.smartContract then s!"fail:{tag}:accepted_smart_contract_signer"
     else "ok"
   else
     let all := c.precond && c.optionalOk && c.partiesPresent && c.rolesPresent && c.provMay && c.requiredCovered
-      && c.rolesCovered && c.smartContract
+      && c.rolesCovered && c.smartContract && c.valueOwner
     -- a rejection is wrong only when every documented requirement is met
     if all then s!"fail:{tag}:rejected_valid:{if impl.startsWith "err:" then (impl.drop 4).toString else impl}" else "ok"
 
@@ -191,6 +202,18 @@ def usedOf (r : Except Err (List PartyDetails)) : List Addr :=
   match r with
   | .ok ps => getUsedSigners ps
   | .error _ => []
+
+def usedVO (r : Except Err (List Addr)) : List Addr :=
+  match r with
+  | .ok u => u
+  | .error _ => []
+
+def parseVO (ws : List String) (k : String) : Addr :=
+  match kv ws k with
+  | some s => if s = "-" then "" else parseAddr s
+  | none => ""
+
+def showVO (a : Addr) : String := if a = "" then "-" else a
 
 structure Parsed where
   out : String
@@ -211,7 +234,7 @@ def stepWords (ws : List String) : Option Parsed := do
   let env := mkEnv grants
   let via ← match kv ws "via" with
     | none => some false
-    | some v => if v = "msg" then some true else none
+    | some v => if v = "msg" ∨ v = "hist" then some true else none
   match ws.head? with
   | some "wp" =>
     let mt ← kv ws "mt"
@@ -245,30 +268,44 @@ def stepWords (ws : List String) : Option Parsed := do
     let mt := "WriteScope"
     let existingSpecRoles := if specChange then roles else none
     let governing := existingSpecRoles.getD newRoles
-    let r := validateWriteScope env existing proposed newRoles existingSpecRoles signers
+    -- value owners (optional): the stored one and the one the message names
+    let hasVO := (kv ws "vo").isSome || (kv ws "pvo").isSome
+    let vo := parseVO ws "vo"
+    let pvo := parseVO ws "pvo"
+    let exVO := lookedUpVO existing vo pvo
+    let only := Spec.onlyValueOwnerChanges existing vo proposed pvo
+    let r := validateWriteScopeVO env existing vo proposed pvo newRoles existingSpecRoles signers
     let used := match existing with
       | none => []
       | some ex =>
-        if ex.rollup then usedOf (validateAllRequiredPartiesSigned env mt ex.owners ex.owners governing signers)
-        else if !ex.equals proposed then usedOf (validateAllRequiredSigned env mt (getPartyAddresses ex.owners) signers)
+        if only then []
+        else if ex.rollup then usedOf (validateAllRequiredPartiesSigned env mt ex.owners ex.owners governing signers)
+        else if !(ex.equals proposed && exVO == pvo) then
+          usedOf (validateAllRequiredSigned env mt (getPartyAddresses ex.owners) signers)
         else []
+    let used := usedVO (validateScopeValueOwnersSigners env mt exVO pvo signers) ++ used
     -- the documented requirement: the roles of the stored scope's specification sign
-    let c := Clauses.ofReq env mt signers used (Spec.writeScopeReq existing proposed governing)
-    let pv := Spec.provenanceRoleOk env proposed.owners
-    let c := { c with rolesPresent := Spec.rolesPresent proposed.owners newRoles, provMust := pv, provMay := pv }
+    let c := Clauses.ofReq env mt signers used (Spec.writeScopeReqVO existing vo proposed pvo governing)
+    let pv := only || Spec.provenanceRoleOk env proposed.owners
+    let c := { c with rolesPresent := only || Spec.rolesPresent proposed.owners newRoles, provMust := pv, provMay := pv
+                      valueOwner := Spec.writeScopeValueOwnerOk env existing vo pvo signers }
     let stored := showScope ({ proposed with other := proposed.other % 1000 })
+    let stored := if hasVO then s!"{stored}@{showVO (if pvo != "" then pvo else vo)}" else stored
     some ((⟨showUnit r, if specChange then "wscope_spec_change" else "wscope", c, none⟩ : Parsed).withStored via stored)
   | some "dscope" =>
     let scope ← (kv ws "scope") >>= parseScope?
     let roles ← (kv ws "roles") >>= parseOpt? parseRoles?
     let mt := "DeleteScope"
-    let r := validateDeleteScope env scope roles signers
+    let vo := parseVO ws "vo"
+    let r := validateDeleteScopeVO env scope vo roles signers
     let used :=
       if !scope.rollup then usedOf (validateAllRequiredSigned env mt (getPartyAddresses scope.owners) signers)
       else match roles with
         | none => usedOf (validateAllRequiredSigned env mt (getRequiredPartyAddresses scope.owners) signers)
         | some rs => usedOf (validateAllRequiredPartiesSigned env mt scope.owners scope.owners rs signers)
-    some ((⟨showUnit r, "dscope", Clauses.ofReq env mt signers used (Spec.deleteScopeReq scope roles), none⟩ : Parsed).withStored
+    let used := usedVO (validateScopeValueOwnersSigners env mt vo "" signers) ++ used
+    let c := Clauses.ofReq env mt signers used (Spec.deleteScopeReq scope roles)
+    some ((⟨showUnit r, "dscope", { c with valueOwner := Spec.deleteScopeValueOwnerOk env vo signers }, none⟩ : Parsed).withStored
       via "none")
   | some "upd" =>
     let mt ← kv ws "mt"
@@ -405,7 +442,10 @@ def stepOp (ws : List String) (impl : Option String) : String × String :=
       | none => "-"
       | some i =>
         let first := (i.splitOn " ").headD ""
-        let v := verdict p.tag p.clauses first
+        -- `state-differs` (history replays): the stored state is no longer what the line says —
+        -- an earlier message of the history was decided differently; nothing to judge here
+        -- (the answer still disagrees with the model's)
+        let v := if first = "state-differs" ∨ first = "bad-op" then "-" else verdict p.tag p.clauses first
         -- an accepted message leaves the entry it asked for (message-server ops only)
         match p.stored with
         | some st =>
